@@ -640,6 +640,7 @@ def classify(src, r):
 def run(ctx, model_ok):
     rng = ctx.rng
     thorough = ctx.tier == "thorough"
+    L.run_stream(ctx, "corpus", L.corpus_scripts("C13"), model_ok, classify=classify)
     for part in pattern_parts(rng, thorough):
         part = list(dict.fromkeys(part))
         for i in range(0, len(part), 100000):
